@@ -23,6 +23,8 @@ func main() {
 		cmdVerify(os.Args[2:])
 	case "check":
 		cmdCheck(os.Args[2:])
+	case "ranges":
+		cmdRanges(os.Args[2:])
 	case "dump":
 		cmdDump(os.Args[2:])
 	default:
@@ -139,3 +141,14 @@ func cmdDump(args []string) {
 	}
 }
 
+
+func cmdRanges(args []string) {
+	eng, err := loadEngine("/repo", nil)
+	if err != nil {
+		fmt.Fprintln(os.Stderr, err)
+		os.Exit(2)
+	}
+	for _, r := range eng.mapRanges() {
+		fmt.Println(r.fn.String(), r.pos, r.rng.X.Type())
+	}
+}
